@@ -907,9 +907,9 @@ func runC11(out *Out, r *Rand, tier string, replay []string) {
 	if replay != nil {
 		lines = replay
 	} else {
-		n, maxOps := 1500, 10
+		n, maxOps := 4000, 10
 		if tier == "thorough" {
-			n, maxOps = 20000, 18
+			n, maxOps = 150000, 18
 		}
 		for i := 0; i < n; i++ {
 			lines = append(lines, genHistory(r, maxOps))
